@@ -39,17 +39,24 @@ Round(e) ==
                /\ LMin(missing) \in DOMAIN nfr /\ nfr[LMin(missing)] > 0      \* lowest missing is fragmented
                /\ "rw:NACKFRAG" \in traffic                                    \* the reader keeps asking for fragments
                /\ e.unsent = <<>>                                              \* the writer has nothing scheduled
+               \* and a fragment of it really never reached the reader (otherwise it is not this finding)
+               /\ ~((1..nfr[LMin(missing)]) \subseteq (IF LMin(missing) \in DOMAIN got THEN got[LMin(missing)] ELSE {}))
       stuck == c2 >= K /\ ~converged
       vConv == IF stuck /\ ~(KnownS3 /\ s3sig) THEN {"C02_not_converged_after_K_fault_free_rounds"} ELSE {}
       kConv == IF stuck /\ KnownS3 /\ s3sig THEN {"C02_S3_nackfrag_not_acted_upon"} ELSE {}
       vQuiet == IF c2 >= K + 1 /\ converged /\ traffic # {} THEN {"C02_traffic_after_convergence"} ELSE {}
       vBytes == IF e.bytes_bad # <<>> THEN {"C05_reassembled_bytes_differ"} ELSE {}
       vTwice == IF \E i, j \in DOMAIN handed : i < j /\ handed[i] = handed[j] THEN {"C05_sample_delivered_twice"} ELSE {}
+      \* every fragment of the lowest sample not yet handed over (nothing holds it back: the reliable reader hands
+      \* over in order) has been delivered to the reader, yet it is not handed over
+      vAsm == IF missing # {} /\ (LET sn == LMin(missing) IN
+                    sn \in DOMAIN nfr /\ nfr[sn] > 0 /\ sn \in DOMAIN got /\ (1..nfr[sn]) \subseteq got[sn])
+                THEN {"C05_complete_fragment_set_not_assembled"} ELSE {}
       vInc == IF \E i \in DOMAIN handed : handed[i] \in DOMAIN nfr /\ nfr[handed[i]] > 0 /\
                     ~((1..nfr[handed[i]]) \subseteq (IF handed[i] \in DOMAIN got THEN got[handed[i]] ELSE {}))
                 THEN {"C05_delivered_before_all_fragments_arrived"} ELSE {}
   IN /\ clean' = c2
-     /\ viol' = viol \cup vConv \cup vQuiet \cup vBytes \cup vTwice \cup vInc
+     /\ viol' = viol \cup vConv \cup vQuiet \cup vBytes \cup vTwice \cup vInc \cup vAsm
      /\ known' = known \cup kConv
      /\ UNCHANGED <<run, nfr, got>>
 
